@@ -140,6 +140,30 @@ impl TypeInfo for HandEnum {
     }
 }
 
+/// every string slot carries leading / trailing / inner whitespace and non-ASCII text: nothing may be trimmed,
+/// normalised or re-escaped on the way into the portable form
+pub struct HandWs;
+impl TypeInfo for HandWs {
+    type Identity = Self;
+    fn type_info() -> Type {
+        Type::builder()
+            .path(Path::new("HandWs", "vuniverse::u1"))
+            .type_params(vec![TypeParameter::new(" T ", Some(meta_type::<i64>())), TypeParameter::new("", None)])
+            .docs_always(&["  two leading", "trailing  ", "\ttab", "", " ", "é✓ \"quoted\" \\ backslash", "line\nbreak"])
+            .variant(
+                Variants::new()
+                    .variant(" V ", |v| {
+                        v.index(7).docs_always(&[" v doc "]).fields(
+                            Fields::named()
+                                .field(|f| f.ty::<u8>().name(" spaced name ").type_name("  Vec < u8 >  ").docs_always(&["    indented code", "\t"]))
+                                .field(|f| f.ty::<bool>().name("").type_name("")),
+                        )
+                    })
+                    .variant("", |v| v.index(0).fields(Fields::unnamed().field(|f| f.ty::<u16>().type_name(" ")))),
+            )
+    }
+}
+
 /// tuple-kind hand-written definition with a type parameter that is the only route to its argument
 pub struct HandTuple;
 impl TypeInfo for HandTuple {
@@ -246,5 +270,6 @@ pub fn universe() -> Vec<Member> {
         m!(HandEnum, "HandEnum"),
         m!(Rc<HandEnum>, "HandEnum"),
         m!(HandTuple, "HandTuple"),
+        m!(HandWs, "HandWs"),
     ]
 }
